@@ -58,7 +58,9 @@ BODY_ATOMS = ["{{t}}", "{{{1}}}", "{{{1|d}}}", "[[Link]]", "[[A|b]]", "<b>q</b>"
               "<syntaxhighlight>", "</syntaxhighlight>", "<timeline>", "</timeline>", "<gallery>", "</gallery>", "{{#if:1|y|n}}",
               "{{lc:ABC}}", "<span style=\"display:none\">", "é", "日本", "\t", "\\", "$", "<", ">", "&",
               "&lt;nowiki&gt;", "&lt;/nowiki&gt;", "&#60;nowiki&#62;''e''&#60;/nowiki&#62;", "&lt;nowiki&gt;''x''&lt;/nowiki&gt;",
-              "&lt;pre&gt;", "&lt;/pre&gt;", "&lt;!-- c --&gt;", "&amp;lt;nowiki&amp;gt;"]
+              "&lt;pre&gt;", "&lt;/pre&gt;", "&lt;!-- c --&gt;", "&amp;lt;nowiki&amp;gt;",
+              # ampersand words that are not entities (no semicolon)
+              "&copy", "title=X&copy=1&reg=2", "a &lt b", "&amp&amp", "&para", "&notit;", "&copy;", "&#65", "&#x41 "]
 
 
 def gen_body(rnd, tag):
@@ -74,10 +76,24 @@ def gen_body(rnd, tag):
     return "plain words"
 
 
+_ENT = re.compile(r"&(#[0-9]{1,8}|#[xX][0-9a-fA-F]{1,7}|[A-Za-z][A-Za-z0-9]{1,31});")
+
+
+def _decode_entity(m):
+    import html.entities
+    e = m.group(1)
+    if e[0] == "#":
+        n = int(e[2:], 16) if e[1] in "xX" else int(e[1:])
+        if n in (0x7f, 0) or n > 0x10ffff or 0xd800 <= n <= 0xdfff:
+            return m.group(0)
+        return chr(n)
+    return html.entities.html5.get(e + ";", m.group(0))
+
+
 def canon(s):
-    """decode character entities until nothing changes"""
+    """decode character entities - only complete ones, ending in ';' - until nothing changes"""
     for _ in range(6):
-        t = html.unescape(s)
+        t = _ENT.sub(_decode_entity, s)
         if t == s:
             break
         s = t
@@ -440,15 +456,24 @@ def check_occurrences(R, kind, text, marks):
     """marks: {unique body word: expected number of occurrences in the tree's text}; no marker may leak"""
     case = {"shape": kind, "text": text, "marks": marks}
     R.breadcrumb(json.dumps(case))
-    nodb = kind in ("glued", "inside-ref-then-again") and "{{" not in text and len(text) % 2 == 0
+    cfg = len(text) % 3 if (kind in ("glued", "inside-ref-then-again", "multi-line-body") and "{{" not in text) else 0
+    nodb = cfg == 1
     if nodb:
         # the parser's other configuration: raw text without a wiki database (no template expansion)
         kind, case["nodb"] = kind + ":no-wikidb", True
         R.count("occurrence_checks_without_wikidb")
+    elif cfg == 2:
+        # a wiki database, but the page is stored already expanded (expand_templates=False)
+        kind, case["noexpand"] = kind + ":expand_templates=False", True
+        R.count("occurrence_checks_without_expansion")
     try:
         if nodb:
             from mwlib.parser.refine.uparser import parse_string
             tree = parse_string("T", raw=text, lang="en")
+        elif cfg == 2:
+            from mwlib.parser.refine.uparser import parse_string
+            from ..gen.db import SynthDB
+            tree = parse_string("T", text, SynthDB({}, "en"), lang="en", expand_templates=False)
         else:
             tree = parse(text)
     except Exception as e:
@@ -492,6 +517,13 @@ def adjacency_cases(rnd, nrandom):
             b1, b2, b3 = "''Bq%da''" % k, "''Bq%db''" % k, "''Bq%dc''" % k
             yield "inside-ref-then-again", "x<ref>r <%s>%s</%s></ref> y <%s>%s</%s> z<ref name=\"q\"><%s>%s</%s></ref>" % (
                 tag, b1, tag, tag2, b2, tag2, tag, b3, tag), {b1: 1, b2: 1, b3: 1}
+    # an opaque tag with a body of several lines inside <poem> / <ref> / a list item (continuation lines are the
+    # body's, not the poem's)
+    for tag in TAGS:
+        for outer in ("<poem>x\n%s\ny</poem>", "<ref>r %s</ref>", "<blockquote>\n%s\n</blockquote>", "<poem>%s</poem>"):
+            k += 1
+            body = "Bq%dz line one\n    ''indented'' two\n: three" % k
+            yield "multi-line-body", outer % ("<%s>%s</%s>" % (tag, body, tag)), {body: 1}
     # a region as the argument of a parser function that passes its argument through (markers must not be touched)
     for fn in ("lc:%s", "uc:%s", "lcfirst:%s", "ucfirst:%s", "lc:X%sY", "uc:x%sy", "padleft:%s|3", "padright:%s|3", "#if:1|%s",
                "#if:|n|%s", "#ifeq:a|a|%s", "#switch:q|#default=%s", "#switch:q|q=%s", "#tag:ref|%s", "#ifexpr:1|%s", "#if:1|{{lc:%s}}"):
